@@ -3,6 +3,7 @@ package main
 import (
 	"fmt"
 	"math/rand"
+	"os"
 	"runtime"
 	"sync/atomic"
 
@@ -251,6 +252,8 @@ func runGroup(cfg groupCfg) (res groupResult) {
 // half of the lookers fire their Submit when the process' goroutine count
 // shows that the pool's Start has spawned its last worker, after a seeded
 // number of spin iterations - this scans the instants right after Start.
+var dbgGroup = os.Getenv("C16_DEBUG_GROUP") != ""
+
 func runGroupConcurrent(cfg groupCfg) (res groupResult) {
 	res.Cfg = cfg
 	rng := rand.New(rand.NewSource(cfg.Seed*1000003 + int64(cfg.Idx)))
@@ -368,6 +371,9 @@ func runGroupConcurrent(cfg groupCfg) (res groupResult) {
 					if k&63 == 63 {
 						runtime.Gosched()
 					}
+				}
+				if dbgGroup {
+					fmt.Fprintf(os.Stderr, "DBG pool=%s target=%d now=%d\n", p.name, p.target, runtime.NumGoroutine())
 				}
 				for k := 0; k < p.delay; k++ {
 					_ = tick.Load()
